@@ -253,6 +253,11 @@ def typed_cases(tier, seed, shard, nshards):
         i += 1
 
 
+def refasm_int(n):
+    ln = (n.bit_length() + 8) // 8 if n >= 0 else ((-n - 1).bit_length() + 8) // 8
+    return n.to_bytes(max(ln, 1), 'big', signed=True)
+
+
 def _typed(tier, seed):
     ks, pks = keys(seed)
     ro = ro_values(seed)
@@ -274,6 +279,17 @@ def _typed(tier, seed):
             for pos in range(ln):
                 other = base[:pos] + bytes([base[pos] ^ 0x01]) + base[pos + 1:]
                 yield (P(base) + P(other) + op(name), 0)
+    # lengths and counts on both sides of every width boundary of the signed encoding (128 needs two bytes), alone and consumed
+    for n in (0, 1, 2, 126, 127, 128, 129, 130, 200, 254, 255, 256, 257, 511, 512, 1000, 1023, 1024):
+        item = bytes((5 * i + 1) & 0xff for i in range(n))
+        for tail in (b'', P(b'\x01') + op('ADD_INTS') + b'\x02', P(b'\x64') + op('LESS'), op('DUP') + op('SIZE')):
+            yield (P(item) + op('SIZE') + tail, 0)
+        if n <= 1000:
+            yield (op('TRUE') * n + op('DEPTH'), 0)
+            yield (op('TRUE') * n + op('DEPTH') + P(b'\x01') + op('ADD_INTS') + b'\x02', 0)
+        if 2 <= n <= 1000:
+            yield (P(item) + P(refasm_int(n // 2)) + op('SPLIT') + op('SIZE'), 0)
+            yield (P(item) + P(refasm_int(n - 1)) + op('SPLIT') + op('POP0') + op('SIZE'), 0)
     # string instructions on multi-byte UTF-8 text (character count != byte count), every index up to the byte length + 1
     for text in ('\u00e9', 'h\u00e9llo', '\u65e5\u672c\u8a9e', 'a\U0001f600b', ''):
         tb = text.encode('utf-8')
